@@ -916,9 +916,11 @@ def ml_gmm_m_step(
     #      = 1/n * sum (Pxx) - mean^2
     if update_variances:
         logger.debug("Update variances.")
-        machine.variances = statistics.sum_pxx / thresholded_n[
-            :, None
-        ] - np.power(machine.means, 2)
+        # variance about the machine's current means (which are the new means when
+        # they were just updated, and the unchanged ones when update_means is False)
+        machine.variances = (
+            statistics.sum_pxx - 2 * machine.means * statistics.sum_px
+        ) / thresholded_n[:, None] + np.power(machine.means, 2)
 
 
 def map_gmm_m_step(
